@@ -405,6 +405,23 @@ def table_group_families(ctx, rng):
         msgs = [(ids, kw, O.mk_message(ids, 64, pattern=True, **kw)) for ids, kw in members]
         fresh = [dec_obs(Decoder(), b) for _, _, b in msgs]
         fresh_enc = [enc_obs(Encoder(), m) if m is not None else None for _, m in fresh]
+        # ... and through the save / load route: a template compiled, written out and loaded back for EACH message
+        order = list(range(len(msgs))) * 2
+        rng.shuffle(order)
+        for j in order:
+            ids, kw, b = msgs[j]
+            if fresh[j][0][0] != 'ok':
+                continue
+            dl = dec_with_loaded(b, kw.get('mtv', 33))
+            got = ('ok', repr(dl[1]), dl[2]) if dl[0] == 'ok' else dl
+            ctx.count(('tg-family-loaded', what, tuple(ids), j), True)
+            ctx.dist['table-group-family-loaded-' + what] += 1
+            if got != fresh[j][0]:
+                ctx.violation(dict(kind='C08-compiled-template-across-table-groups', case={'ids': ids, 'message': kw, 'order': order,
+                                                                                           'bytes': b.hex(), 'route': 'save-load'},
+                                   got=str(got)[:300], interpreted=str(fresh[j][0])[:300]),
+                              'ids %s %s: decode through a compiled template saved and loaded after the same descriptor list was '
+                              'loaded under another table group differs from the decode without compilation' % (ids, kw))
         for k in ((1, 5) if ctx.quick else (1, 2, 5)):
             dec, enc = Decoder(compiled_template_cache_max=k), Encoder(compiled_template_cache_max=k)
             order = list(range(len(msgs))) * 2
